@@ -217,6 +217,18 @@ func init() {
 		}
 		return th.m.ts.Const(64, uint64(n))
 	}
+	I[rtPkg+"ExploreOnly"] = func(th *Thread, fn *ssa.Function, args []Value) Value {
+		m := th.m
+		m.schedOnly = nil
+		for _, a := range args[0].(Slice) {
+			m.schedOnly = append(m.schedOnly, concreteStr(m, a, "package suffix"))
+		}
+		return nil
+	}
+	I[rtPkg+"HashInjective"] = func(th *Thread, fn *ssa.Function, args []Value) Value {
+		th.m.hashInjective = true
+		return nil
+	}
 	I[rtPkg+"Yield"] = func(th *Thread, fn *ssa.Function, args []Value) Value {
 		th.schedPoint("yield")
 		return nil
@@ -272,7 +284,7 @@ func init() {
 		ts := th.m.ts
 		return ts.Bin(OpBAnd, args[0].(*Term), ts.Const(64, ^uint64(0)>>1))
 	}
-	for _, name := range []string{"Pow", "Floor", "Ceil", "Log", "Log2", "Log10", "Sqrt", "Trunc", "Mod", "Exp", "Round"} {
+	for _, name := range []string{"Pow", "Floor", "Ceil", "Log", "Log2", "Log10", "Sqrt", "Trunc", "Mod", "Exp", "Round", "Max", "Min"} {
 		name := name
 		I["math."+name] = func(th *Thread, fn *ssa.Function, args []Value) Value {
 			m := th.m
@@ -308,6 +320,10 @@ func init() {
 				r = math.Exp(fs[0])
 			case "Round":
 				r = math.Round(fs[0])
+			case "Max":
+				r = math.Max(fs[0], fs[1])
+			case "Min":
+				r = math.Min(fs[0], fs[1])
 			}
 			return m.ts.Const(64, f64bits(r))
 		}
@@ -517,7 +533,30 @@ func init() {
 		return nil
 	}
 	I["github.com/twmb/murmur3.StringSum64"] = func(th *Thread, fn *ssa.Function, args []Value) Value {
-		return th.m.hashUF("murmur3", th.m.strBytes(args[0].(Str)))
+		m := th.m
+		if s := args[0].(Str); s.Opaque != nil {
+			// hash of an abstract string: one free value per distinct rope
+			id := "murmur3:"
+			for _, sg := range s.Opaque.Segs {
+				if sg.ID != "" {
+					id += "[" + sg.ID + "]"
+				} else {
+					for _, b := range sg.Bytes {
+						id += fmt.Sprintf("n%d,", b.id)
+					}
+				}
+			}
+			if m.opaqueHash == nil {
+				m.opaqueHash = map[string]*Term{}
+			}
+			if t, ok := m.opaqueHash[id]; ok {
+				return t
+			}
+			t := m.freshVar("hash.murmur3.opaque", 64)
+			m.opaqueHash[id] = t
+			return t
+		}
+		return m.hashUF("murmur3", m.strBytes(args[0].(Str)))
 	}
 	I["github.com/twmb/murmur3.Sum64"] = func(th *Thread, fn *ssa.Function, args []Value) Value {
 		var bs []*Term
@@ -695,17 +734,30 @@ func (m *Machine) hashUF(name string, bs []*Term) *Term {
 	}
 	out := m.freshVar("hash."+name, 64)
 	for _, c := range m.hashCalls {
-		if c.fn != name || len(c.bytes) != len(bs) {
+		if c.fn != name {
+			continue
+		}
+		if len(c.bytes) != len(bs) {
+			if m.hashInjective {
+				m.assume(m.ts.Not(m.ts.Eq(out, c.out)))
+			}
 			continue
 		}
 		eq := m.ts.Bool(true)
 		for i := range bs {
 			eq = m.ts.And(eq, m.ts.Eq(bs[i], c.bytes[i]))
 		}
+		if m.hashInjective {
+			// stated assumption of the harness: no two different inputs of this run collide
+			m.assume(m.ts.Implies(m.ts.Not(eq), m.ts.Not(m.ts.Eq(out, c.out))))
+		}
 		if eq.IsFalse() {
 			continue
 		}
 		m.assume(m.ts.Implies(eq, m.ts.Eq(out, c.out)))
+	}
+	if m.hashInjective {
+		m.res.Assumes = appendUniq(m.res.Assumes, name+": different inputs hashed in this run do not collide (harness assumption)")
 	}
 	_ = allConst
 	m.hashCalls = append(m.hashCalls, hashCall{fn: name, bytes: append([]*Term{}, bs...), out: out})
